@@ -623,6 +623,8 @@ class PhaseField(_Simu):
         if self.phaseFieldModel.solver == self.phaseFieldModel.SolverType.History:
             # update old history field for next resolution
             self.__old_psiP_e_pg = self.__psiP_e_pg
+            # the history field is part of the state of this iteration: keep it, so that Set_Iter can bring it back
+            iter["psiP_e_pg"] = np.array(self.__old_psiP_e_pg, dtype=float)
 
         iter["displacement"] = self.displacement
         iter["damage"] = self.damage
@@ -644,6 +646,17 @@ class PhaseField(_Simu):
         # damage and displacement field will change thats why we need to update the assembled matrices
         self.__updatedDamage = False
         self.__updatedDisplacement = False
+
+        if (
+            not resetAll
+            and self.phaseFieldModel.solver == self.phaseFieldModel.SolverType.History
+            and "psiP_e_pg" in results
+        ):
+            # restore the history field that was current when this iteration was saved
+            psiP_e_pg = np.array(results["psiP_e_pg"], dtype=float)
+            if psiP_e_pg.ndim >= 2:
+                psiP_e_pg = FeArray.asfearray(psiP_e_pg)
+            self.__old_psiP_e_pg = psiP_e_pg
 
         if (
             resetAll
